@@ -169,8 +169,69 @@ fn rerun_ranges(input: &str) -> Option<String> {
     check_ranges(&ops)
 }
 
+// ---- index_of / last_index_of on both bitfields against a brute-force scan of get()
+fn check_searches(ops: &[(u64, u64, bool)], probes: &[u64]) -> Option<String> {
+    let r = guarded(|| {
+        let mut bf = match DynamicBitfield::open(Some(StoreInfo::new_content(Store::Bitfield, 0, &[]))) {
+            Either::Right(b) => b, Either::Left(_) => return Some("open".to_string()) };
+        let mut hi = 0u64;
+        for (start, len, val) in ops.iter() { bf.update(&BitfieldUpdate { drop: !*val, start: *start, length: *len }); hi = hi.max(start + len + 40); }
+        for p in probes.iter().cloned() {
+            // held blocks only (the callers search for `true`): first held block at or after p, last held block at or before p
+            let want_up = (p..hi + 32768 * 2).find(|i| bf.get(*i));
+            let got_up = bf.index_of(true, p);
+            if got_up != want_up { return Some(format!("DynamicBitfield::index_of(true, {p}) = {:?}, a scan of get() gives {:?}", got_up, want_up)); }
+            let want_down = (0..=p).rev().find(|i| bf.get(*i));
+            let got_down = bf.last_index_of(true, p);
+            if got_down != want_down { return Some(format!("DynamicBitfield::last_index_of(true, {p}) = {:?}, a scan of get() gives {:?}", got_down, want_down)); }
+        }
+        // one fixed page, both values
+        let mut fb = FixedBitfield::new();
+        for (start, len, val) in ops.iter() { let s = (*start % 32768) as u32; let l = (*len).min(32768 - s as u64) as u32; fb.set_range(s, l, *val); }
+        for p in probes.iter().map(|p| (*p % 32768) as u32) {
+            for v in [true, false] {
+                let want_up = (p..32768).find(|i| fb.get(*i) == v);
+                if fb.index_of(v, p) != want_up { return Some(format!("FixedBitfield::index_of({v}, {p}) = {:?}, a scan gives {:?}", fb.index_of(v, p), want_up)); }
+                let want_down = (0..=p).rev().find(|i| fb.get(*i) == v);
+                if fb.last_index_of(v, p) != want_down { return Some(format!("FixedBitfield::last_index_of({v}, {p}) = {:?}, a scan gives {:?}", fb.last_index_of(v, p), want_down)); }
+            }
+        }
+        None
+    });
+    match r { Ok(x) => x, Err(p) => Some(format!("panic: {}", p)) }
+}
+fn search_searches(rng: &mut Rng, budget: usize) -> Option<String> {
+    let edges = [0u64, 1, 20, 31, 32, 33, 37, 63, 64, 65, 69, 8191, 8192, 32767, 32768, 32769, 65535, 65536];
+    let mut cases: Vec<(Vec<(u64, u64, bool)>, Vec<u64>)> = vec![
+        (vec![(0, 100, true), (32, 32, false), (20, 17, false)], vec![0, 19, 20, 36, 37, 63, 64, 99, 100]),
+        (vec![(0, 70000, true), (32760, 20, false), (65530, 10, false)], vec![0, 32759, 32760, 32779, 32780, 65529, 65540, 69999, 70000]),
+    ];
+    for _ in 0..budget.min(60) {
+        let n = 1 + rng.below(5) as usize;
+        let mut ops = Vec::new();
+        for _ in 0..n { let start = if rng.chance(2, 3) { rng.pick(&edges).saturating_sub(rng.below(3)) } else { rng.below(70000) }; let len = if rng.chance(1, 2) { 1 + rng.below(70) } else { 1 + rng.below(40000) }; ops.push((start, len, rng.chance(2, 3))); }
+        let probes: Vec<u64> = (0..12).map(|_| if rng.chance(1, 2) { rng.pick(&edges) + rng.below(6) } else { rng.below(80000) }).collect();
+        cases.push((ops, probes));
+    }
+    for (ops, probes) in cases {
+        if let Some(m) = check_searches(&ops, &probes) {
+            let enc: Vec<String> = ops.iter().map(|(s, l, v)| format!("{},{},{}", s, l, *v as u8)).collect();
+            let pe: Vec<String> = probes.iter().map(|p| p.to_string()).collect();
+            return Some(format!("{{\"ops(start,len,set)\":{:?},\"probes\":{:?},\"why\":\"{}\"}}|{}|{}", ops, probes, m, enc.join(";"), pe.join(",")));
+        }
+    }
+    None
+}
+fn rerun_searches(input: &str) -> Option<String> {
+    let parts: Vec<&str> = input.split('|').collect();
+    let ops: Vec<(u64, u64, bool)> = parts[1].split(';').map(|t| { let f: Vec<&str> = t.split(',').collect(); (f[0].parse().unwrap(), f[1].parse().unwrap(), f[2] == "1") }).collect();
+    let probes: Vec<u64> = parts[2].split(',').map(|x| x.parse().unwrap()).collect();
+    check_searches(&ops, &probes)
+}
+
 pub fn contracts() -> Vec<Contract> {
     vec![
+        Contract { name: "bitfield.searches", covers: &["FixedBitfield::index_of", "FixedBitfield::last_index_of", "DynamicBitfield::index_of", "DynamicBitfield::last_index_of"], search: search_searches, rerun: rerun_searches },
         Contract { name: "bitfield.from_data", covers: &["FixedBitfield::from_data"], search: search_from_data, rerun: rerun_from_data },
         Contract { name: "bitfield.open", covers: &["DynamicBitfield::open", "FixedBitfield::from_data"], search: search_open, rerun: rerun_open },
         Contract { name: "bitfield.ranges", covers: &["DynamicBitfield::set_range", "DynamicBitfield::update", "DynamicBitfield::get", "DynamicBitfield::flush",
